@@ -16,6 +16,7 @@ Only the statements that *are* the property live here (helper lemmas: `Lemmas/C0
 * `table_pair`          one table entry = the cursor machine on the two-element sequence
 * `compiled_eq_interp`  every non-empty word, with and without both boundaries: the glyph/kern
                         sequence of the compiled run is the result of the cursor machine
+* `spell_noLB`, `compiled_eq_interp_noLB`  the same for `RunOptions::disable_left_boundary`
 -/
 namespace C05
 
@@ -164,6 +165,29 @@ example : acyclicB exBoth = true := by decide
 example : glyphs (runM exBoth [97, 102, 102, 105]) = [.kern 5, .glyph 97, .glyph 14, .glyph 33] := by decide
 example : interp exBoth 20 (seqOf exBoth [97, 102, 102, 105]) = some [.kern 5, .glyph 97, .glyph 14, .glyph 33] := by
   decide
+
+/-! ### The same two laws without the left boundary (`RunOptions::disable_left_boundary`) -/
+
+theorem spell_noLB (p : Program) (w : List Nat) : originals (runNoLB p w) = w := by
+  cases w with
+  | nil => rfl
+  | cons c rest =>
+    have := (goL_spell (table p) p.rb (table_good p) rest).1 (some c)
+    simpa [runNoLB] using this
+
+theorem compiled_eq_interp_noLB (p : Program) (w : List Nat) (hac : acyclicB p = true) (hw : w ≠ []) :
+    (∃ fuel, interp p fuel (seqNoLB p w) = some (glyphs (runNoLB p w))) ∧
+    (∀ fuel out, interp p fuel (seqNoLB p w) = some out → out = glyphs (runNoLB p w)) := by
+  cases w with
+  | nil => exact absurd rfl hw
+  | cons c rest =>
+    have hI : Interp p (seqNoLB p (c :: rest)) (glyphs (runNoLB p (c :: rest))) := by
+      have := goL_sem p hac rest c true none
+      simpa [seqNoLB, runNoLB, rbEl] using this
+    obtain ⟨f, hf⟩ := interp_complete p hI
+    exact ⟨⟨f, hf⟩, fun fuel out h => interp_det p h hf⟩
+
+example : glyphs (runNoLB exBoth [97, 102, 102, 105]) = [.glyph 97, .glyph 14, .glyph 33] := by decide
 
 /-- The hypothesis of `compiled_eq_interp` cannot be dropped: on a program with a looping
 pair the machine does not terminate on a word that reaches it, while the compiled run does
